@@ -29,7 +29,8 @@ FLOORS = {'library_calls': 20000, 'formula_calls': 300,
           'identity_checks': 200, 'functions_seen': 13,
           'non_text_arguments': 50, 'text_form_views': 100,
           'blank_count_cases': 40, 'texts_spelt_like_names': 300,
-          'long_concatenation_chains': 40, 'case_folding_letters': 60}
+          'long_concatenation_chains': 40, 'case_folding_letters': 60,
+          'apostrophe_literal_cases': 60}
 ANCHOR_FUNCS = {'xlcalculator/xlfunctions/text.py': [
     'LEN', 'LEFT', 'RIGHT', 'MID', 'FIND', 'REPLACE', 'UPPER', 'LOWER',
     'TRIM', 'EXACT', 'CONCAT', 'CONCATENATE']}
@@ -518,6 +519,31 @@ def run(ctx):
                          f'already', {'function': 'LOWER', 'args': [t],
                                       'observed': got},
                          monitor='string-semantics', group='case-folding:lib')
+    # ---- apostrophes inside a text literal are characters like any other (only
+    # a doubled DOUBLE quote is an escape there) --------------------------------
+    if ctx.shard in (6, 7) or thorough:
+        apos = ["it''s", "''", "'", "a'''b", "''''", "x''", "''x", "O'Brien",
+                "say \"hi\" ''twice''", "'Sheet 1'!A1"]
+        forms = {}
+        for t_ in apos:
+            q = subject.lit(t_)
+            forms[(f'=LEN({q})', '')] = ('num', float(len(t_)))
+            forms[(f'={q}&"|"', '')] = ('text', t_ + '|')
+            forms[(f'=LEFT({q},2)', '')] = ('text', t_[:2])
+            forms[(f'=RIGHT({q},2)', '')] = ('text', t_[-2:])
+            forms[(f'=EXACT({q},A1)', t_)] = ('bool', True)
+            forms[(f'=UPPER({q})', '')] = ('text', t_.upper())
+        for (text, cellv), want in forms.items():
+            got = subject.eval_one(text, {'A1': cellv} if cellv else {})
+            ctx.event('formula_calls')
+            ctx.event('apostrophe_literal_cases')
+            ctx.case(('apostrophes', text))
+            if got != ('value', want):
+                ctx.fail(f'{text}{" with A1 = " + repr(cellv) if cellv else ""}: '
+                         f'observed {got}, expected {want}',
+                         {'formula': text, 'A1': cellv, 'observed': got,
+                          'expected': want}, monitor='string-semantics',
+                         group='apostrophes:' + text[1:5])
     # ---- long & chains (the operator has no limit on the number of operands;
     # a formula may be 8192 characters long) ------------------------------------
     if ctx.shard in (2, 3) or thorough:
